@@ -78,6 +78,18 @@ impl Future for Scripted {
 }
 
 pub fn run(_params: &[i64], ops: &Rows, mon: &mut Mon) -> Rows {
+    go(ops, 0, mon)
+}
+
+/// C19, concurrent part: '119 <threads> | history' — the history runs as usual (wakers obtained inside polls of the opaque future and retained);
+/// then every thread receives a clone of each retained waker (same slot numbers) and replays, concurrently with the others, the clone / wake /
+/// wake_by_ref / drop operations of the history on its own copy of the pool, and finally drops what it still holds; then the driver drops the
+/// retained wakers.  Output: one row [times the caller's waker was woken, clones of it still held].
+pub fn run_threads(params: &[i64], ops: &Rows, mon: &mut Mon) -> Rows {
+    go(ops, params.get(0).copied().unwrap_or(4).clamp(1, 16) as usize, mon)
+}
+
+fn go(ops: &Rows, threads: usize, mon: &mut Mon) -> Rows {
     let cw = Arc::new(CountWake { wakes: AtomicUsize::new(0) });
     let orig: Waker = Waker::from(cw.clone());
     let base = Arc::strong_count(&cw) + 1; // cw + orig + the copy inside Shared
@@ -100,6 +112,35 @@ pub fn run(_params: &[i64], ops: &Rows, mon: &mut Mon) -> Rows {
             s.record(row);
         }
     }
+    let mut thread_wakes = 0usize;
+    if threads > 0 {
+        let d = crate::alloc::domain(0);
+        let copies: Vec<Vec<Option<Waker>>> = { let s = sh.lock().unwrap(); (0..threads).map(|_| s.pool.iter().map(|w| w.clone()).collect()).collect() };
+        let script: Vec<Vec<i64>> = ops.iter().filter(|o| matches!(o[0], 2 | 3 | 4 | 5)).cloned().collect();
+        let barrier = std::sync::Barrier::new(threads);
+        let counts: Vec<Option<usize>> = std::thread::scope(|sc| {
+            let hs: Vec<_> = copies.into_iter().map(|mut pool| { let script = &script; let barrier = &barrier; sc.spawn(move || {
+                barrier.wait();
+                let mut n = 0usize;
+                for op in script {
+                    let h = op[1];
+                    let live = h >= 0 && (h as usize) < pool.len() && pool[h as usize].is_some();
+                    if !live { continue; }
+                    match op[0] {
+                        2 => { let w = pool[h as usize].as_ref().unwrap().clone(); pool.push(Some(w)); }
+                        3 => { pool[h as usize].take().unwrap().wake(); n += 1; }
+                        4 => { pool[h as usize].as_ref().unwrap().wake_by_ref(); n += 1; }
+                        _ => { drop(pool[h as usize].take()); }
+                    }
+                }
+                drop(pool);
+                n
+            }) }).collect();
+            hs.into_iter().map(|h| h.join().ok()).collect()
+        });
+        crate::alloc::domain(d);
+        for (k, c) in counts.iter().enumerate() { match c { Some(n) => thread_wakes += n, None => mon.fail(format!("thread {} panicked", k)) } }
+    }
     // final: drop every remaining handle in slot order
     let npool = sh.lock().unwrap().pool.len();
     for h in 0..npool {
@@ -109,12 +150,12 @@ pub fn run(_params: &[i64], ops: &Rows, mon: &mut Mon) -> Rows {
     }
     let out: Rows = sh.lock().unwrap().rows.clone();
     // monitor
-    let wake_ops = out.iter().step_by(2).filter(|r| (r[0] == 1 || r[0] == 3 || r[0] == 4) && r[1] == 1).count();
+    let wake_ops = out.iter().step_by(2).filter(|r| (r[0] == 1 || r[0] == 3 || r[0] == 4) && r[1] == 1).count() + thread_wakes;
     let o = sh.lock().unwrap().observe();
     if o[0] as usize != wake_ops { mon.fail(format!("caller's waker woken {} times for {} wake operations", o[0], wake_ops)); }
     if o[1] != 0 { mon.fail(format!("{} clones of the caller's waker still held after every foreign waker is gone", o[1])); }
     drop(obj);
     drop(sh);
     if Arc::strong_count(&cw) != 2 { mon.fail(format!("strong count of the caller's waker is {} instead of 2", Arc::strong_count(&cw))); }
-    out
+    if threads > 0 { vec![o] } else { out }
 }
